@@ -14,7 +14,9 @@ def mk_results(frame, far=50.0):
     for i, (eid, lab, gid, ok) in enumerate(frame):
         x = 3.0 * i
         e = build.obj3d(dict(label=lab, x=x, y=0.0, uuid=eid))
-        g = None if gid is None else build.obj3d(dict(label=lab, x=x + (0.2 if ok else far) + 0.001 * i, y=0.0, uuid=gid))
+        # ground truths are cars (the evaluated label); an estimate reported with another label and paired with a car is filed under "car" by the pipeline and is a
+        # result like any other: it is not correct (label policy DEFAULT), hence an FP unless it continues a previous TP pairing
+        g = None if gid is None else build.obj3d(dict(label="car", x=x + (0.2 if ok else far) + 0.001 * i, y=0.0, uuid=gid))
         out.append(DynamicObjectWithPerceptionResult(e, g))
     return out
 
@@ -25,13 +27,13 @@ def oracle(history, G):
     prev = None
     for t, frame in enumerate(history):
         if t > 0:
-            ptp = [p for p in prev if p[2] is not None and p[3]]
+            ptp = [p for p in prev if p[2] is not None and p[3] and p[1] == "car"]
             for (eid, lab, gid, ok) in frame:
                 same = gid is not None and any(p[0] == eid and p[1] == lab and p[2] == gid for p in ptp)
                 switched = gid is not None and any(((p[0] == eid and p[1] == lab) != (p[2] == gid)) for p in ptp)
                 if same:
                     tp += 1
-                elif gid is not None and ok:
+                elif gid is not None and ok and lab == "car":
                     tp += 1
                     if switched:
                         sw += 1
@@ -59,12 +61,12 @@ def expected_score(history, res, mode):
     from perception_eval.evaluation.matching.object_matching import MatchingMode
     total = 0.0
     for t in range(1, len(history)):
-        ptp = [(p, r) for p, r in zip(history[t - 1], res[t - 1]) if p[2] is not None and p[3]]
+        ptp = [(p, r) for p, r in zip(history[t - 1], res[t - 1]) if p[2] is not None and p[3] and p[1] == "car"]
         for (eid, lab, gid, ok), r in zip(history[t], res[t]):
             same = [pr for p, pr in ptp if gid is not None and p[0] == eid and p[1] == lab and p[2] == gid]
             if same:
                 total += same[0].get_matching(MatchingMode(mode)).value
-            elif gid is not None and ok:
+            elif gid is not None and ok and lab == "car":
                 total += r.get_matching(MatchingMode(mode)).value
     return total
 
@@ -124,7 +126,8 @@ def search(item, seed):
             frame = []
             for i, e in enumerate(es):
                 g = rnd.choice([gs[i], gs[i], None])
-                frame.append((e, rnd.choice(["car", "car", "car"]), g, rnd.random() < 0.75))
+                # an unpaired estimate is filed under its own label: only paired estimates may carry another label here
+                frame.append((e, rnd.choice(["car", "car", "car", "pedestrian"]) if g is not None else "car", g, rnd.random() < 0.75))
             hist.append(frame)
         case = dict(history=hist, G=rnd.randint(0, 8), mode=rnd.choice(list(MODES)))
         why = check(case)
